@@ -202,7 +202,7 @@ func TestC15_SignVerify(t *testing.T) {
 		}
 
 		// tampering
-		mut := rapid.IntRange(0, 12).Draw(t, "tamper")
+		mut := rapid.IntRange(0, 13).Draw(t, "tamper")
 		var bad string
 		badKey := jwk
 		label := ""
@@ -285,6 +285,9 @@ func TestC15_SignVerify(t *testing.T) {
 				dup = string(hb[:len(hb)-1]) + "," + string(hb[1:])
 			}
 			bad, label = b64([]byte(dup))+"."+seg[1]+"."+seg[2], "header-duplicate-member"
+		case 13: // the header segment is one JSON object: text after it (not white space) makes it something else
+			tail := rapid.SampledFrom([]string{"}", "{\"alg\":\"none\"}", " garbage", "\x00", ",\"kid\":\"other\"", "[]", "0", " {}", "\n}"}).Draw(t, "headerTail")
+			bad, label = b64(append(append([]byte{}, hb...), tail...))+"."+seg[1]+"."+seg[2], "header-trailing-text"
 		case 8: // malformed segment split
 			switch rapid.IntRange(0, 3).Draw(t, "split") {
 			case 0:
@@ -399,9 +402,28 @@ func TestC15_CallerHeaders(t *testing.T) {
 		signer := libSignerFor(k, k.Type.Alg(), kid)
 		// unprotected headers are not part of a compact JWS and not signed: giving some changes nothing about the round trip
 		unprotected := rapid.SampledFrom([]jws.Headers{nil, nil, {}, {"jku": "https://keys.example/set.json"}, {"x-note": "unsigned", "jku": "https://k.example"}}).Draw(t, "unprotected")
-		sig, err := jwsutil.NewJWS(extra, unprotected, payload, signer)
+		// the header map belongs to the caller: it is not changed by signing, and what the caller does with it afterwards (the
+		// next message gets other values) does not reach into the JWS that was made
+		var mine jws.Headers
+		if extra != nil {
+			mine = jws.Headers{}
+			for n, v := range extra {
+				mine[n] = v
+			}
+		}
+		before := fmt.Sprint(map[string]interface{}(mine))
+		sig, err := jwsutil.NewJWS(mine, unprotected, payload, signer)
 		if err != nil {
 			t.Fatalf("C15 NewJWS(%v): %v", extra, err)
+		}
+		if after := fmt.Sprint(map[string]interface{}(mine)); after != before {
+			t.Fatalf("C15 NewJWS changed the caller's header map: %s -> %s", before, after)
+		}
+		if mine != nil && rapid.Bool().Draw(t, "callerChangesHeadersAfterwards") {
+			mine["cty"] = "changed-afterwards"
+			mine["kid"] = "other-key"
+			delete(mine, "typ")
+			delete(mine, "b64")
 		}
 		// a signer is good for any number of signatures: making another one does not touch the first
 		if rapid.Bool().Draw(t, "signerUsedAgain") {
